@@ -237,8 +237,9 @@ def geo : Family := mkFamily "sc_geo" 20 geoFixed 1 genGeo
 
 /-! ### ranges: all 32 flag combinations × 6 range types first (batches of one) -/
 
-/-- a numeric with `k` base-10000 digits 1, 2, 3, … (weight `k − 1`: an integer) -/
-def longNum (k : Nat) : Spec.Numeric := .fin false ((k : Int) - 1) 0 ((List.range k).map (· + 1))
+/-- a numeric with `k` base-10000 digits 1, 2, 3, … (weight `min k 60 − 1`, so that the short numeric header admits it: an
+integer up to 60 digits, beyond that with fraction digits) -/
+def longNum (k : Nat) : Spec.Numeric := .fin false ((min k 60 : Nat) - 1) 0 ((List.range k).map (· + 1))
 
 /-- numrange (fix 15) beyond the flag sweep: bounds on both sides of the 1-byte / 4-byte header switch (payload 126 / 127
 bytes), every amount of padding in front of a 4-byte-header upper bound (lower absent: 0; lower with a 4-byte header: 0 or 2;
@@ -319,6 +320,33 @@ def genRawBytes (oid : Nat) : Gen Bytes := do
     let np ← Gen.oneOf [0, 1, 2, 3, 4294967295, 2147483648, 2147483647, 268435456, 134217728]
     let k ← Gen.below 3
     bs := (← Gen.oneOf [0, 1]) :: le 4 np ++ (← Gen.bytes (16 * k + (← Gen.below 3)))
+    -- fix 14: the stored layout (count, 8 / 32 header bytes, points), exact and off by a few bytes / one point
+    if ← Gen.prob 1 2 then
+      let first := if oid == 604 then 36 else 12
+      let np ← Gen.oneOf [0, 1, 2, 3, 4294967295, 2147483648]
+      let k ← Gen.oneOf [0, 1, 2, 3]
+      let extra ← Gen.oneOf [0, 0, 0, 1, 15, 16, 9]
+      let hdr ← Gen.bytes (first - 4)
+      let cl ← Gen.oneOf [0, 1, 256, 4294967295]
+      let hdr := if oid == 602 && (← Gen.prob 1 2) then le 4 cl ++ hdr.drop 4 else hdr
+      bs := (le 4 np ++ hdr ++ (← Gen.bytes (16 * k + extra))).take (first + 16 * k + extra - (← Gen.oneOf [0, 0, 0, 1, 16]))
+  if oid == 3906 && (← Gen.prob 3 4) then
+    -- fix 15: varlena-shaped bounds (1-byte / 4-byte headers with right and wrong lengths, padding zeros, numeric header words)
+    let piece : Gen Bytes := do
+      let pay ← (do
+        let h ← Gen.oneOf [0x8000, 0x8001, 0x0000, 0x4000, 0xC000, 0xD000, 0xF000, 0xA07F, 0x8040]
+        let k ← Gen.oneOf [0, 1, 2, 3, 63]
+        let ds ← Gen.listOf k (Gen.oneOf [0, 1, 9999, 10000, 65535, 1234])
+        return le 2 h ++ ds.flatMap (le 2))
+      match ← Gen.below 6 with
+      | 0 => return zeros (← Gen.below 4) ++ le 4 ((pay.length + 4) * 4) ++ pay
+      | 1 => return le 4 ((pay.length + 4 + (← Gen.below 3)) * 4 + (← Gen.below 4)) ++ pay
+      | 2 => return UInt8.ofNat ((pay.length + 1 + (← Gen.below 3)) * 2 + 1) :: pay
+      | 3 => return [← Gen.oneOf [0, 1, 3, 5, 0xFF, 0x02]] ++ pay
+      | _ => return UInt8.ofNat ((pay.length + 1) * 2 + 1) :: pay
+    let a ← piece
+    let b ← (do if ← Gen.prob 2 3 then piece else pure [])
+    bs := le 4 3906 ++ a ++ b ++ [UInt8.ofNat (← Gen.oneOf [0, 2, 4, 6, 8, 16, 24, 1, 31, 10, 18])]
   if Model.Scalars.isRangeOid oid && (← Gen.prob 3 4) then
     let l ← Gen.oneOf [5, 8, 9, 12, 13, 16, 17, 20, 21, 24, 25]
     let body ← Gen.bytes (l - 1)
